@@ -240,6 +240,8 @@ class CliSim(object):
         self.stats["rel_order"] += 1
         if a["ok"] and b["ok"]:
             self.stats["rel_order_both_ok"] += 1
+            if case.get("sub") == "override":
+                self.stats["probe:override_pairs_both_ok"] += 1
         if a["ok"] != b["ok"]:
             self.violate(step, "order_dependent_outcome", {"a": case["a"], "b": case["b"], "out_a": self.brief(a), "out_b": self.brief(b)})
         elif a["ok"] and not self.same_output(a, b):
